@@ -15,6 +15,7 @@ var checks = map[string]func(run *ev.Run){
 	"C18": genlab.CheckC18,
 	"C19": genlab.CheckC19,
 	"C16": genlab.CheckC16,
+	"C17": genlab.CheckC17,
 	"C02": genlab.CheckC02,
 	"C03": genlab.CheckC03,
 	"C04": genlab.CheckC04,
